@@ -96,6 +96,7 @@ def run(ctx):
     ncases = ctx.n(240, 4000)
     cases, records = [], []
     ecases, erecords = [], []
+    ocases, orecords = [], []
     for ci in range(ncases):
         small = ci % 2 == 0
         inputs, output, size_dict = gen.rand_net(rng, nmin=2, nmax=5 if small else 8,
@@ -213,6 +214,11 @@ def run(ctx):
             if False else lhs
         cases.append(("recipes%d" % ci, lhs, rhs))
         records.append(rec)
+        # the traversal order actually produced is a children-first enumeration (verified checker
+        # valid_order_b, Proofs/ExecOrderFacts.v): the premise of the linear-execution theorem
+        if len(inputs) >= 2:
+            ocases.append(("order%d" % ci, "valid_order_b %s %s" % (tl, order_lit(tree, order)), "true"))
+            orecords.append(rec)
         if prog and any(i[0] == "T" for i in prog):
             ctx.count("tensordot_steps")
         if pre:
@@ -259,6 +265,12 @@ Definition is_pre (o : nat * (list nat * (list nat * (list nat * (list nat * (li
         rec["impl_value"] = cases[idx][2]
         rec["correspondence"] = "Model/Program.v recipes/program vs get_inds/get_can_dot/get_tensordot_*/get_einsum_eq/extract_contractions"
         ctx.fail("model and implementation disagree on the contraction recipes/program", rec, found_input=False)
+    failing = ctx.coq_cases("c01order", ["Net", "Einsum", "Program", "ExecOrderFacts"], ocases, chunk=120)
+    for idx, label, val in failing:
+        rec = dict(orecords[idx]) if idx < len(orecords) else {}
+        rec["model_value"] = val
+        ctx.fail("the traversal order produced by tree.traverse is not a children-first enumeration of the tree "
+                 "(parents before children, or a node missing/duplicated)", rec, found_input=True)
     failing = ctx.coq_cases("c01exec", ["Net", "Einsum", "Program", "Arrays"], ecases, chunk=20, timeout=900)
     for idx, label, val in failing:
         rec = dict(erecords[idx]) if idx < len(erecords) else {}
